@@ -340,7 +340,12 @@ where
         log!("{}: {:?}", "Token ahead".paint(LOG), &next_token);
 
         loop {
-            let action = self.definition.actions(state, next_token.kind)[0];
+            let action = self
+                .definition
+                .actions(state, next_token.kind)
+                .first()
+                .copied()
+                .unwrap_or(Action::Error);
 
             match action {
                 Action::Shift(state_id) => {
